@@ -139,8 +139,6 @@ func c27MustRejectVersion(in []byte) string {
 }
 
 func TestVerifC27Replication(t *testing.T) {
-	r := ev.Start(t, "C27")
-	defer r.Finish()
 	batches, results := c27ReplicationValues(t)
 	ver := byte(replication.ExchangeVersion)
 	batchCodec := &kit.Codec{
@@ -175,9 +173,9 @@ func TestVerifC27Replication(t *testing.T) {
 		Values:          results,
 		Headers:         [][]byte{{ver}, {ver, 1}, {ver, 1, 1}, {ver, 1, 1, 1}, {ver, 2}},
 	}
-	k := kit.NewRunner(r)
-	k.Run([]*kit.Codec{batchCodec, resultCodec})
-	if r.Replay() == nil {
-		r.Guard("replication-menu", len(batches) >= 8 && len(results) >= 8, "batch values=%d result values=%d", len(batches), len(results))
-	}
+	kit.Main(t, "C27", func() []*kit.Codec { return []*kit.Codec{batchCodec, resultCodec} }, func(r *ev.R, replaying bool) {
+		if !replaying {
+			r.Guard("replication-menu", len(batches) >= 8 && len(results) >= 8, "batch values=%d result values=%d", len(batches), len(results))
+		}
+	})
 }
